@@ -2242,6 +2242,12 @@ def semantic_substitute(modname: str, tree: ast.Module, const_attrs=frozenset())
             proved.append(q)
     if not proved:
         return log
+    used_before = set()
+    for x in ast.walk(tree):
+        if isinstance(x, ast.Attribute):
+            used_before.add(x.attr)
+        elif isinstance(x, ast.Name) and isinstance(x.ctx, ast.Load):
+            used_before.add(x.id)
 
     # replace the proved functions
     class Repl(ast.NodeTransformer):
@@ -2297,7 +2303,9 @@ def semantic_substitute(modname: str, tree: ast.Module, const_attrs=frozenset())
                 used.add(x.attr)
             elif isinstance(x, ast.Name) and isinstance(x.ctx, ast.Load):
                 used.add(x.id)
+        # (a new private method that nothing ever named is not a helper: it may override a hook)
         dead = [q for q in only_cur if q in cur and q.split('.')[-1].startswith('_')
+                and q.split('.')[-1] in used_before
                 and not q.split('.')[-1].startswith('__') and q.split('.')[-1] not in (
                     used - _self_refs(cur[q], q.split('.')[-1]))]
         if not dead:
